@@ -714,6 +714,42 @@ func registerStd() {
 		return Float{OK: true, F: math.Pow10(int(t.Signed())), W: 64}
 	}
 
+	// math/bits (table lookups in the real code would fork 256 ways)
+	bitsLen := func(w int) NativeFn {
+		return func(m *Machine, fr *frame, args []Value) Value {
+			x := args[0].(*smt.Term)
+			if x.IsConst() {
+				n := 0
+				for v := x.Val; v != 0; v >>= 1 {
+					n++
+				}
+				return m.i64(int64(n))
+			}
+			r := m.i64(0)
+			for k := 1; k <= w; k++ {
+				// Len = k  iff  x >= 2^(k-1)  (largest such k wins)
+				r = m.C.Ite(m.C.Ule(m.C.Const(uint64(1)<<uint(k-1), x.W), x), m.i64(int64(k)), r)
+			}
+			return r
+		}
+	}
+	I["math/bits.Len64"] = bitsLen(64)
+	I["math/bits.Len32"] = bitsLen(32)
+	I["math/bits.Len16"] = bitsLen(16)
+	I["math/bits.Len8"] = bitsLen(8)
+	I["math/bits.Len"] = bitsLen(64)
+	lz := func(w int) NativeFn {
+		return func(m *Machine, fr *frame, args []Value) Value {
+			l := bitsLen(w)(m, fr, args).(*smt.Term)
+			return m.C.Sub(m.i64(int64(w)), l)
+		}
+	}
+	I["math/bits.LeadingZeros64"] = lz(64)
+	I["math/bits.LeadingZeros32"] = lz(32)
+	I["math/bits.LeadingZeros16"] = lz(16)
+	I["math/bits.LeadingZeros8"] = lz(8)
+	I["math/bits.LeadingZeros"] = lz(64)
+
 	// encoding/hex
 	I["encoding/hex.DecodeString"] = func(m *Machine, fr *frame, args []Value) Value {
 		b := m.strBytes(fr, args[0])
@@ -755,6 +791,20 @@ func registerStd() {
 	I["(*sync.Map).Store"] = func(m *Machine, fr *frame, args []Value) Value {
 		mp := m.syncMap(args[0].(*Value))
 		m.onSyncMap(fr, args[0].(*Value), true)
+		if m.env["watch"] != nil {
+			// an object stored in a shared pool is published: watch its fields
+			if itf, ok := args[2].(Iface); ok {
+				if ptr, ok := itf.V.(*Value); ok && ptr != nil {
+					if pt, ok := itf.T.Underlying().(*types.Pointer); ok {
+						name := pt.Elem().String()
+						if i := strings.LastIndex(name, "."); i >= 0 {
+							name = name[i+1:]
+						}
+						m.watchStruct(ptr, pt.Elem(), name)
+					}
+				}
+			}
+		}
 		m.mapUpdate(fr, mp, args[1], args[2])
 		return nil
 	}
